@@ -133,7 +133,8 @@ impl Runner {
     }
 
     pub fn normalise(&self, s: &str) -> String {
-        s.replace(&self.root_str(), ROOT_TOKEN)
+        // the sandbox root, and its per-worker parent (reachable through `..`)
+        s.replace(&self.root_str(), ROOT_TOKEN).replace(&self.base.to_string_lossy().to_string(), "@BASE@")
     }
 
     /// Materialise the world and run the case once.
